@@ -242,6 +242,10 @@ def gen_case(run_seed: int, index: int, tier: str) -> dict:
                 case["stages"].insert(pos, nm)
                 if rng.random() < 0.5:
                     case["ops"].insert(rng.randrange(len(case["ops"])), ["inner_add", nm, f"{nm}x"])
+        if kind == "sequential" and case["stages"] and rng.random() < 0.3:
+            # the caller keeps the list it handed to the constructor: it goes on editing it, or builds a second pipeline from it
+            # and edits that one; the pipeline under test was declared by the constructor call and must not follow
+            case["caller_list"] = rng.choice(["twin_add", "twin_add", "twin_remove", "append", "pop"])
     elif kind in ("deepjscc", "channelcode"):
         nfix = 4 if kind == "deepjscc" else 6
         extra = 0
@@ -283,6 +287,9 @@ def gen_case(run_seed: int, index: int, tier: str) -> dict:
             case["ops"].append(["forward", call])
     elif kind == "feedback":
         case["max_iterations"] = rng.choice([0, 1, 1, 2, 3, 4, 5, 5, 6, 8, 12])
+        # a third of the feedback runs carry tensors through deterministic stages, so that every round produces the same feedback
+        # (a quantised ACK/NACK, a noiseless link): the configured number of rounds is performed all the same
+        case["fb_tensor"] = rng.random() < 0.35
         for _ in range(rng.choice([1, 2])):
             case["ops"].append(["forward", _gen_call(rng, 0)])
     elif kind == "mac":
@@ -400,7 +407,20 @@ def run_sequential_family(ctx: Ctx):
 
     if kind == "sequential":
         names = list(case["stages"])
-        model = SequentialModel([stage(n) for n in names]) if names else SequentialModel()
+        handed = [stage(n) for n in names]
+        model = SequentialModel(handed) if names else SequentialModel()
+        cl = case.get("caller_list")
+        if cl and names:
+            if cl == "twin_add":
+                SequentialModel(handed).add_step(RecModel("zz", tr))
+            elif cl == "twin_remove":
+                SequentialModel(handed).remove_step(0)
+            elif cl == "append":
+                handed.append(RecModel("zz", tr))
+            elif cl == "pop":
+                handed.pop()
+            ctx.res.faults["history.callers_list_edited_after_construction"] += 1
+            ctx.log.add("op.caller_list", cl)
     elif kind == "configurable":
         names = []
         model = ConfigurableModel()
@@ -814,13 +834,37 @@ def run_feedback(ctx: Ctx):
         feedback_generator=RecModel("feedback_generator", tr, mode="tuple2"), feedback_channel=RecChannel("feedback_channel", tr),
         feedback_processor=RecModel("feedback_processor", tr), max_iterations=R,
     )
+    fbt = bool(case.get("fb_tensor"))
+    if fbt:
+        model = FeedbackChannelModel(
+            encoder=RecModel("encoder", tr, mode="affine", a=3, b=5), forward_channel=RecChannel("forward_channel", tr, mode="affine", a=7, b=11),
+            decoder=RecModel("decoder", tr, mode="affine", a=13, b=17), feedback_generator=RecModel("feedback_generator", tr, mode="affine", a=19, b=23),
+            feedback_channel=RecChannel("feedback_channel", tr, mode="affine", a=1, b=0), feedback_processor=RecModel("feedback_processor", tr, mode="affine", a=29, b=31),
+            max_iterations=R,
+        )
     for op in case["ops"]:
         call = op[1]
-        x0 = ("in", call["input"])
+        x0 = torch.tensor([call["input"], 1, -2], dtype=torch.int64) if fbt else ("in", call["input"])
         out = model(x0, *call["args"], **call["kwargs"])
         trace = ctx.take_trace()
         ctx.log.add("op.forward", {"in": x0, "rounds": R})
         ctx.res.probes["feedback.forward"] += 1
+        if fbt:
+            ctx.res.probes["feedback.tensor_valued_repeating_feedback"] += 1
+            counts = Counter(t[0] for t in trace)
+            want = {"encoder": R, "forward_channel": R, "decoder": R, "feedback_generator": R, "feedback_channel": R}
+            bad = {st: counts[st] for st in want if counts[st] != want[st]}
+            if bad:
+                ctx.violate("round_count", f"stages ran {bad} times with bit-identical feedback in every round, configured rounds {R}", stage=sorted(bad)[0])
+            elif not isinstance(out, dict):
+                ctx.violate("result", f"returned {type(out).__name__}")
+            elif len(out.get("iterations", [])) != R or len(out.get("feedback_history", [])) != R:
+                ctx.violate("round_count", f"reported {len(out.get('iterations', []))} iterations / {len(out.get('feedback_history', []))} feedback entries, configured rounds {R}", stage="report")
+            elif R >= 1 and not teq(out.get("final_output"), 13 * (7 * (3 * x0 + 5) + 11) + 17):
+                ctx.violate("result", f"final_output {out.get('final_output')!r} is not the decoded value of the last round")
+            if R >= 2:
+                ctx.res.nontrivial.append(core.short_hash(["feedback.tensor", R, len(call["args"]), sorted(call["kwargs"])]))
+            continue
         if R >= 2:
             ctx.res.nontrivial.append(core.short_hash(["feedback", R, len(call["args"]), sorted(call["kwargs"])]))
         counts = Counter(t[0] for t in trace)
